@@ -4,8 +4,8 @@ D="$(readlink -f "$1")"
 export GOFLAGS=-mod=mod GOPROXY=off GOSUMDB=off GOTOOLCHAIN=local; unset GOWORK
 S="$(mktemp -d /tmp/valmut.XXXXXX)"; trap 'rm -rf "$S"' EXIT
 mkdir -p "$S/clean" "$S/mut"
-(cd /repo && git archive HEAD) | tar -x -C "$S/clean"
-(cd /repo && git archive HEAD) | tar -x -C "$S/mut"
+(cd /repo && git archive "${BASE:-HEAD}") | tar -x -C "$S/clean"
+(cd /repo && git archive "${BASE:-HEAD}") | tar -x -C "$S/mut"
 apply=ok; (cd "$S/mut" && git init -q . && git apply "$D/patch.diff") >/dev/null 2>&1 || apply=FAIL
 build=-; tests=-; dm=-; dc=-
 if [ $apply = ok ]; then
